@@ -76,7 +76,7 @@ impl Scenario for JoypadEvents {
         false
     }
     fn quick_runs(&self, _f: &str) -> u64 {
-        8000
+        24000
     }
     fn chunk(&self) -> u64 {
         250
